@@ -60,10 +60,10 @@ class SDecStr:
 
 class SFn:
     """string of symbolic length: length term + `at` closure (index term -> char term)"""
-    __slots__ = ("len", "at", "name")
-
     def __init__(self, ln, at, name):
         self.len, self.at, self.name = ln, at, name
+        self.all_fix = False        # every character is Fix (contracts.common)
+        self.upper_closed = False   # upper() is the identity on it
 
     def __repr__(self):
         return f"SFn({self.name})"
